@@ -330,6 +330,35 @@ func negativeSizeProbes(cfg *lib.Config, res *lib.Result) {
 	}
 }
 
+// hasNaNBound: the type contains a Float type with a NaN bound (only the types inferred for values that hold NaN: no
+// expression and no constructor call with ordered bounds gives one)
+func hasNaNBound(t *types.VerifTy) bool {
+	if t.K == "Float" && t.NaN {
+		return true
+	}
+	for _, e := range t.Ts {
+		if hasNaNBound(e) {
+			return true
+		}
+	}
+	for _, e := range t.Keys {
+		if hasNaNBound(e) {
+			return true
+		}
+	}
+	return false
+}
+
+// nanTag appends the tag of the open finding float-nan-bound when one of the pool types involved has a NaN bound
+func nanTag(u *lat.Universe, tags []string, is ...int) []string {
+	for _, i := range is {
+		if hasNaNBound(u.Dec[i]) {
+			return append(tags, "float-nan-bound")
+		}
+	}
+	return tags
+}
+
 func trivial(u *lat.Universe, i int) bool { k := u.Dec[i].K; return k == "Any" || k == "Unit" }
 
 func run(c px.Context, cfg *lib.Config, res *lib.Result) {
@@ -343,6 +372,8 @@ func run(c px.Context, cfg *lib.Config, res *lib.Result) {
 	// repeat a value (directly or through the case-insensitive flag); a separate generator, so that the random types of
 	// the model fragment stay what they were
 	xt := lat.ExtTypes(lib.NewRng(cfg.Seed^0x5eed03), nRandomX, cfg.Thorough())
+	// third wave: Float types with an infinite bound, the family of Object types, twin systems of mutually recursive aliases
+	xt = append(xt, lat.Ext3Types(lib.NewRng(cfg.Seed^0x5eed04), cfg.Thorough())...)
 	u := lat.NewUniverseWith(rng, nRandom, 1, xt, nil)
 	// Unit is "two-way assignable by definition" (every type accepts it and it accepts every type), so no
 	// order law can hold through it (Integer >= Unit >= String): types that contain Unit are left out.
@@ -353,6 +384,12 @@ func run(c px.Context, cfg *lib.Config, res *lib.Result) {
 	}
 	n := len(u.L)
 	res.Extra["types"] = n
+	for _, sp := range u.Specs {
+		switch sp.K {
+		case "FloatB", "ValType", "Decl", "DeclOnce":
+			res.Count("pool.type." + sp.K)
+		}
+	}
 	spec := func(i int) interface{} { return u.Specs[i] }
 
 	// ---- reflexivity: the separately built copy, and the re-parsed text
@@ -360,7 +397,7 @@ func run(c px.Context, cfg *lib.Config, res *lib.Result) {
 		res.Evaluations++
 		if !u.Asg[a][a] {
 			res.Violate(lib.Violation{Clause: "reflexive-copy", What: fmt.Sprintf("%s does not accept a separately constructed copy of itself%s", u.Text[a], lat.Legend(u.Specs[a])),
-				Input: map[string]interface{}{"kind": "refl", "a": spec(a)}, Tags: []string{"refl:" + u.Dec[a].K}})
+				Input: map[string]interface{}{"kind": "refl", "a": spec(a)}, Tags: nanTag(u, []string{"refl:" + u.Dec[a].K}, a)})
 		}
 		var p px.Type
 		_, crash := lat.Guarded(func() bool { p = c.ParseType(u.Text[a]); return true })
@@ -466,13 +503,13 @@ func run(c px.Context, cfg *lib.Config, res *lib.Result) {
 			v := build(vs)
 			if v != nil && !asg(v, u.R[a]) {
 				res.Violate(lib.Violation{Clause: "variant-member", What: fmt.Sprintf("%s does not accept its member %s", v, u.Text[a]),
-					Input: map[string]interface{}{"kind": "law", "law": fmt.Sprintf("variant%d", i), "a": spec(a)}, Tags: []string{"variant-member:" + u.Dec[a].K}})
+					Input: map[string]interface{}{"kind": "law", "law": fmt.Sprintf("variant%d", i), "a": spec(a)}, Tags: nanTag(u, []string{"variant-member:" + u.Dec[a].K}, a)})
 			}
 		}
 		o := build(lat.W("Optional", u.Specs[a]))
 		if o != nil && (!asg(o, u.R[a]) || !asg(o, undefT)) {
 			res.Violate(lib.Violation{Clause: "optional-accepts", What: fmt.Sprintf("%s does not accept %s or Undef", o, u.Text[a]),
-				Input: map[string]interface{}{"kind": "law", "law": "optional", "a": spec(a)}, Tags: []string{"optional:" + u.Dec[a].K}})
+				Input: map[string]interface{}{"kind": "law", "law": "optional", "a": spec(a)}, Tags: nanTag(u, []string{"optional:" + u.Dec[a].K}, a)})
 		}
 	}
 	// ---- widening a size or range never turns acceptance into rejection (on either side of the receiver)
